@@ -1189,6 +1189,11 @@ class Ctx:
                 env = sym.expr_local(self.b, 1)
                 for key in (self.len_key(("proj", env, str(k))), ("len", "arg1.%d" % k)):
                     self.extra.append(Lin(1) - self.atom(key, 0, LEN_MAX))
+            elif kind == "le_param":
+                if not (self.defs.get(val) or self.pdefs.get(val)):
+                    r1, r2 = self.rng(self.b["locals"][k]["ty"]), self.rng(self.b["locals"][val]["ty"])
+                    if r1 and r2:
+                        self.extra.append(self.atom(("v", k), r1[0], r1[1]) - self.atom(("v", val), r2[0], r2[1]))
             elif kind == "le_len":
                 self.extra.append(self.atom(("v", k), 0, None) - self.atom(("len", val), 0, LEN_MAX))
 
@@ -1595,6 +1600,22 @@ def param_facts(u, fn):
             if hi is not None:
                 out.append(("hi", k, hi))
                 out.append(("lo", k, lo))
+            # integer parameters ordered at every call site: param_j <= param_k
+            for j in range(1, b["argc"] + 1):
+                if j == k or b["locals"][j]["ty"] != ty:
+                    continue
+                ok = True
+                for (p, cb, bb, args) in sites:
+                    if max(j, k) - 1 >= len(args):
+                        ok = False
+                        break
+                    cx = cxs.setdefault(p, Ctx(cb, u))
+                    good, _h = cx.prove_le0(cx.lin(args[j - 1]) - cx.lin(args[k - 1]), bb)
+                    if not good:
+                        ok = False
+                        break
+                if ok:
+                    out.append(("le_param", j, k))
         elif ty.replace("'_ ", "").lstrip("&") in ("[u8]", "str", "std::vec::Vec<u8>") and ty.startswith("&") and not ty.startswith("&mut"):
             ok = True
             for (p, cb, bb, args) in sites:
